@@ -189,7 +189,7 @@ fn c15_kstring_pop_front_full() {
 }
 
 // @props C15 C06:thorough C13:thorough
-// @tier quick
+// @tier thorough
 // @fns KString::pop_back (Full representation), StringSlice::split, From<StringSlice<usize>> for KString, the grapheme segmentation model
 // @bound text of 4 bytes in UTF-8 shapes [1,1,1,1], [1,2,1], [2,2], [3,1], [1,3]; ASCII slots in {a, CR, LF, tab}, 2-byte slots in {U+00E9, U+0301}, 3-byte slot U+5B57
 // @timeout 1200
@@ -201,7 +201,7 @@ fn c15_kstring_pop_back_full() {
 }
 
 // @props C15 C06:thorough C13:thorough
-// @tier quick
+// @tier thorough
 // @fns KString::pop_front (Slice (u16 bounds) representation), StringSlice::split, From<StringSlice<usize>> for KString, the grapheme segmentation model
 // @bound text of 4 bytes in UTF-8 shapes [1,1,1,1], [1,2,1], [2,2], [3,1], [1,3]; ASCII slots in {a, CR, LF, tab}, 2-byte slots in {U+00E9, U+0301}, 3-byte slot U+5B57
 // @timeout 1200
